@@ -297,6 +297,16 @@ lzma_decode(void *coder_ptr, lzma_dict *restrict dictptr,
 	// is known, eopm_is_valid may be set to true later.
 	bool eopm_is_valid = coder->uncompressed_size == LZMA_VLI_UNKNOWN;
 
+	// If all of the known amount of uncompressed data has already been
+	// decoded and we are resuming in the middle of a symbol, then the
+	// symbol was started in SEQ_IS_MATCH below where eopm_is_valid was
+	// set to true but the input ended before EOPM was fully decoded.
+	// Without this the remembered validity would be lost between calls.
+	if (coder->uncompressed_size == 0 && coder->allow_eopm
+			&& coder->sequence != SEQ_NORMALIZE
+			&& coder->sequence != SEQ_IS_MATCH)
+		eopm_is_valid = true;
+
 	// If uncompressed size is known and there is enough output space
 	// to decode all the data, limit the available buffer space so that
 	// the main loop won't try to decode past the end of the stream.
